@@ -52,6 +52,9 @@ func (c c04Case) labels(fields []struct{ Name, Pos string }) []string {
 		// the finding key is (position kind, metacharacter contained): field and symbol names go into the detail
 		l = append(l, metaLabels(fields[f].Pos, sXML[c.Syms[i]].Val)...)
 	}
+	if c.Flow != "" && c.Kind != "sso-flow" {
+		l = append(l, "flow="+c.Flow)
+	}
 	if c.ACSMode == "query" || c.Flow == "query-url" {
 		l = append(l, metaLabels("attr", "?tenant=1&x=y")...)
 	}
@@ -175,8 +178,21 @@ func c04Judge(c c04Case) c04Verdict {
 			p.ACS = strp("https://sp-a.example/acs?tenant=1&x=y")
 		case "empty":
 			p.ACS = strp("")
+		case "leading-blank":
+			p.ACS = strp(" https://sp-a.example/acs")
+		case "control-char":
+			p.ACS = strp("https://sp-a.example/a\x7fcs")
+		case "bad-escape":
+			p.ACS = strp("https://sp-a.example/acs%zz")
+		case "missing-bracket":
+			p.ACS = strp("https://[::1/acs")
+		case "relative":
+			p.ACS = strp("/acs/relative")
 		}
 		w, t := cbBuild(p)
+		if c.Flow == "mismatched-key" {
+			w.Store.FaultAt("GetResponseSigningKey", 1, world.FaultMismatch)
+		}
 		rep, m := cbRun(w, t)
 		v.Class = "callback:" + m.Kind
 		v.Detail["reply"] = obs.Describe(rep, m)
@@ -265,6 +281,10 @@ func c04Judge(c c04Case) c04Verdict {
 			panic(err)
 		}
 		rep := w.Do(world.NewRequest("GET", "", w.Cfg.MetadataPath(), nil, "", nil))
+		if c.Flow == "second-fetch" {
+			// the document served to the second request on the same provider is judged
+			rep = w.Do(world.NewRequest("GET", "", w.Cfg.MetadataPath(), nil, "", nil))
+		}
 		v.Class = fmt.Sprintf("metadata:%d", rep.Status)
 		if rep.Panic != "" {
 			v.Class = "metadata:blocked_by_panic"
@@ -361,9 +381,10 @@ func runC04(ctx Ctx) int {
 	algs := []string{"", "rsa-sha1"}
 	for _, b := range []string{"", "redirect"} {
 		for _, a := range algs {
-			for _, am := range []string{"", "query", "empty"} {
+			for _, am := range []string{"", "query", "empty", "leading-blank", "control-char", "bad-escape", "missing-bracket", "relative"} {
 				cases = append(cases, c04Case{Kind: "callback", Binding: b, SigAlg: a, ACSMode: am})
 			}
+			cases = append(cases, c04Case{Kind: "callback", Binding: b, SigAlg: a, Flow: "mismatched-key"})
 			for f := range c04Fields {
 				for s := 1; s < len(sXML); s++ {
 					cases = append(cases, c04Case{Kind: "callback", Binding: b, SigAlg: a, Fields: []int{f}, Syms: []int{s}})
@@ -393,6 +414,7 @@ func runC04(ctx Ctx) int {
 	}
 	for _, ms := range []string{"", world.RSASHA256, world.RSASHA1} {
 		cases = append(cases, c04Case{Kind: "metadata", MetaSig: ms})
+		cases = append(cases, c04Case{Kind: "metadata", MetaSig: ms, Flow: "second-fetch"})
 		for f := range c04MetaFields {
 			for s := 1; s < len(sXML); s++ {
 				cases = append(cases, c04Case{Kind: "metadata", MetaSig: ms, Fields: []int{f}, Syms: []int{s}})
